@@ -22,11 +22,11 @@ class Field:
         self.field_kwargs: dict[str, ast.expr] = {}
         self.has_default = node.value is not None
         v = node.value
-        if isinstance(v, ast.Call) and ast.unparse(v.func) in ("field", "dataclasses.field", "Field", "pydantic.Field"):
+        if isinstance(v, ast.Call) and ast.unparse(v.func) in ("field", "dataclasses.field", "Field", "pydantic.Field", "pd.Field"):
             self.field_kwargs = {k.arg: k.value for k in v.keywords if k.arg}
             self.default = self.field_kwargs.get("default")
             self.default_factory = self.field_kwargs.get("default_factory")
-            if ast.unparse(v.func) in ("Field", "pydantic.Field") and v.args:
+            if ast.unparse(v.func) in ("Field", "pydantic.Field", "pd.Field") and v.args:
                 self.default = v.args[0]
             self.has_default = self.default is not None or self.default_factory is not None
             if isinstance(self.default, ast.Constant) and self.default.value is Ellipsis:
